@@ -135,7 +135,8 @@ BUILTIN_TYPES = ('str', 'bytes', 'bytearray', 'int', 'bool', 'float', 'dict', 'l
 BUILTIN_EXC = ('ValueError', 'KeyError', 'IndexError', 'TypeError', 'OSError', 'Exception',
                'AttributeError', 'RuntimeError', 'KeyboardInterrupt', 'SystemExit',
                'ImportError', 'BaseException', 'RecursionError', 'UnicodeDecodeError',
-               'TimeoutError', 'LookupError', 'StopIteration', 'AssertionError', 'GeneratorExit')
+               'TimeoutError', 'LookupError', 'StopIteration', 'AssertionError', 'GeneratorExit',
+               'BrokenPipeError')
 
 
 def builtin(eng, name):
@@ -168,6 +169,8 @@ LIB_CONST = {}
 LIB_EXC = {
     'asyncio.TimeoutError': 'TimeoutError', 'asyncio.CancelledError': 'CancelledError',
     'asyncio.QueueEmpty': 'QueueEmptyLib', 'queue.Empty': 'QueueEmptyLib',
+    'websocket.WebSocketConnectionClosedException': 'WebSocketConnectionClosedException',
+    'websocket.WebSocketTimeoutException': 'WebSocketTimeoutException',
     'binascii.Error': 'BinasciiError',
 }
 LIB_MODS = {'urllib.parse', 'os.path'}
@@ -193,6 +196,7 @@ def class_method(eng, cls, attr, recv):
     return V(FN, ('libm', '%s.%s' % (cls, attr), recv, fn))
 
 
+OPAQUE_ATTR = {}     # (opaque type name, attribute) -> fn(eng, st, o) -> V  (data attributes)
 OPAQUE_CALL = {}     # opaque type name -> fn(eng, st, f, args, kwargs, line)
 app_call1 = z3.Function('app_call1', I, PV, PV)
 app_call0 = z3.Function('app_call0', I, PV)
@@ -761,17 +765,30 @@ def slice(eng, st, o, lo, hi, line):
         t = eng.coerce(v, INT).t
         t = z3.If(t < 0, z3.If(t + n < 0, 0, t + n), z3.If(t > n, n, t))
         return t
-    def const(v):
+    def nonneg(t):
+        """syntactically non-negative: a length, a non-negative numeral, or a sum of such"""
+        if z3.is_int_value(t):
+            return t.as_long() >= 0
+        if z3.is_app(t):
+            k = t.decl().kind()
+            if k == z3.Z3_OP_SEQ_LENGTH:
+                return True
+            if k == z3.Z3_OP_ADD:
+                return all(nonneg(c) for c in t.children())
+        return False
+
+    def bound(v):
         if v is None:
             return None
         t = z3.simplify(eng.coerce(v, INT).t)
-        return t.as_long() if z3.is_int_value(t) and t.as_long() >= 0 else None
-    ca, cb = const(lo), const(hi)
-    # non-negative constant bounds: seq.extract clamps at the end of the sequence by itself
-    if (lo is None or ca is not None) and (hi is None or cb is not None):
-        a0 = ca or 0
-        ln0 = n if hi is None else z3.IntVal(max(cb - a0, 0))
-        yield st, V(o.ty, z3.simplify(z3.SubSeq(o.t, z3.IntVal(a0), ln0)))
+        return t if nonneg(t) else False
+    ca, cb = bound(lo), bound(hi)
+    # non-negative bounds: seq.extract clamps at the end of the sequence by itself (offset beyond
+    # the end or a non-positive length give the empty sequence, as Python's slice does)
+    if ca is not False and cb is not False:
+        a0 = z3.IntVal(0) if ca is None else ca
+        ln0 = n if cb is None else z3.simplify(cb - a0)
+        yield st, V(o.ty, z3.simplify(z3.SubSeq(o.t, a0, ln0)))
         return
     a = norm(lo, z3.IntVal(0))
     b = norm(hi, n)
